@@ -329,6 +329,11 @@ func trimSeg(cols []Col, segs [][2]int, allowEdge bool) [][2]int {
 	var out [][2]int
 	for _, s := range segs {
 		a, b := s[0], s[1]
+		// never start a segment in the middle of an insertion run: the rest of
+		// the run is dropped, so that one insertion belongs to one record only
+		for a > 0 && a < b && cols[a].Kind == 'I' && cols[a-1].Kind == 'I' {
+			a++
+		}
 		if !allowEdge {
 			for a < b && cols[a].Kind != 'M' {
 				a++
